@@ -13,6 +13,13 @@ for _k, _v in ocss.KEYWORD_RGB.items():
     KW_BY_RGB.setdefault(_v, []).append(_k)
 KW_LIST = sorted(ocss.KEYWORD_RGB)
 
+_KW_RGBS = sorted(KW_BY_RGB)
+
+
+def nearest_keyword(rgb):
+    return min(_KW_RGBS, key=lambda k: (k[0] - rgb[0]) ** 2 + (k[1] - rgb[1]) ** 2 + (k[2] - rgb[2]) ** 2)
+
+
 # ---- JSON-able encoding of python colour arguments -----------------------------------------------
 
 
